@@ -7,6 +7,7 @@ import re
 
 from ..astutil import alpha_same, attr_chain, call_attr, calls_in, guard_facts, inline_chain_aliases, unparse, walk_local, text_facts
 from ..cfg import CFG
+from ..setbuild import describe as describe_set
 from ..dataflow import reaching_defs, resolved_text
 from ..report import Finding, Report
 from ..srcindex import AnalysisError, FuncInfo, Index
@@ -270,6 +271,13 @@ def check(idx: Index, rep: Report, tier: str) -> str:
                 return False
             if alpha_same(e_, f"[use.operation for use in {fromv}.uses]") or alpha_same(e_, f"list(use.operation for use in {fromv}.uses)") or alpha_same(e_, f"tuple(use.operation for use in {fromv}.uses)"):
                 return True
+            # the same collection built by an explicit loop
+            try:
+                d_ = describe_set(f.node, cfg, it, cfg.node_of(w))
+                if not d_.unknown and not d_.bases and len(d_.adds) == 1 and len(d_.adds[0].iters) == 1 and not [t_ for t_, _ in d_.adds[0].facts if re.search(rf"\b{re.escape(d_.adds[0].iters[0][0])}\b", t_)] and d_.adds[0].iters[0][1] == f"{fromv}.uses" and d_.adds[0].elem == f"{d_.adds[0].iters[0][0]}.operation":
+                    return True
+            except AnalysisError:
+                pass
             m_ = re.fullmatch(r"(\w+)\.modified_ops", unparse(it))
             if m_:
                 trk = m_.group(1)
